@@ -655,6 +655,12 @@ def judge_pwg(a, b, p, want, rng, mf=None):
         info["faithful_model"] = "agrees" if mf == r else "differs"
     if pa in (None, "meridian"):
         info["cause"] = "unexplained"
+        if (not want) and r is True and dot(cross(a, b), p) != 0:
+            # the on-plane test compares |(a x b).p| for UNIT a, b, p with an absolute tolerance, but |a x b| = sin(arc):
+            # is the exact value of that quantity already within ERROR_TOLERANCE?
+            resid = float(abs(Fraction(dot(cross(a, b), p))) / (norm_frac(a) * norm_frac(b) * norm_frac(p)))
+            if resid <= impl()["tol"]:
+                info["cause"] = "plane_test_abs_tol"
         if want and r is False:
             if float_plane_residual(unitf(a), unitf(b), unitf(p)) > impl()["tol"]:      # the tolerance of the on-plane test
                 info["cause"] = "plane_test_eps"
